@@ -49,6 +49,9 @@ T = {
  "C07": ("vexec", "runtime monitoring: brute-force oracle in the exact regime, calibrated recall floors and structural invariant walker in the large regime",
   "In the regime where the base layer is fully connected (<= 2M nodes incl. unvacuumed deletions) every k-NN answer after every operation of generated histories (adds, batches, imports, deletes, vacuum, refine, compress, restart) must equal the brute-force top-k distance multiset, for all efSearch; on fixed seed-determined batches of 1000-3000 vectors mean recall@10 and self-retrieval must stay above floors calibrated on this tree (min over 10 seeds and all stages minus 0.10, capped at 0.85) at every maintenance stage; graph invariants (degree bounds, no dangling / self links, live entry point, reachability) are walked after each step.",
   "Floors are empirical (regression detectors, not a recall guarantee) and currently include the recorded findings D-C07-1..5 (probes + guards) pending repair and recalibration."),
+ "C13": ("vexec", "Go race detector + stress workloads with randomised yields at hook points + porcupine linearizability check + lost-update counters + deadlock witness from goroutine dumps",
+  "Four workload shapes (client mix; + admin goroutine cycling snapshot / compaction / vacuum / refine / graph vacuum; + index create / import / compress / drop and three kinds of event subscribers; + Close in the middle) with 4-24 clients on shared items run in a -race build with seed-determined sleeps and yields at every hook point and GOMAXPROCS in {2,4,16}. Oracles: no race report in kektordb frames, no panic / fatal error, deadlock only with a dump witness, every acknowledged reinforcement counted, every acknowledged concurrently merged metadata key present, the recorded KV history linearizable per key (porcupine), consistent id maps, state identical after restart, clean failure and durability after Close.",
+  "Interleavings are those the scheduler produces here; evidence reports the number of distinct cross-goroutine adjacent hook-point pairs observed. rr is unavailable, so a schedule cannot be replayed (the seed reproduces the operation lists)."),
  "C14": ("vexec", "runtime monitoring with forced schedules (hook gates) + ownership protocol under concurrent admin operations + writer contract",
   "The complete table of 264 forced schedules {write op} x {SaveSnapshot, RewriteAOF} x {phase boundary} x {write parked between journal and apply | write issued while the admin op is parked} is driven with hook gates; concurrently owned items with increasing sequence numbers are written while snapshots and compactions (also overlapping, also auto-triggered) run; the lazy writer's Flush / Sync / Close / snapshot-mode contract is checked with an atomic acknowledgement counter. After restart every acknowledged write must be present.",
   "Schedule table enumerated completely (exhaustive over that finite table); free-running parts are exploration. Gates use verifhook points."),
